@@ -120,7 +120,7 @@ SMALL_DOMAINS = [
 def gen_exhaustive(tier, rng):
     """All tables up to 3x3 over 3-value domains (incl. the missing pair).  thorough: complete;
     quick: everything up to 5 cells, 35% of the 6-cell tables, a seeded sample of 150 of the 3x3 tables per
-    domain; search (tie broken): everything up to 6 cells, 1500 of the 3x3 tables per domain."""
+    domain; search (tie broken): everything up to 6 cells, 500 of the 3x3 tables per domain."""
     out = []
     for name, dom in SMALL_DOMAINS:
         vals = [v for _, v in dict.fromkeys((type(v), v) for v in dom)]     # 1 and True are different values
@@ -128,7 +128,7 @@ def gen_exhaustive(tier, rng):
             for c in range(1, 4):
                 n = r * c
                 if tier != 'thorough' and n == 9:
-                    picks = [tuple(rng.choice(vals) for _ in range(n)) for _ in range(150 if tier == 'quick' else 1500)]
+                    picks = [tuple(rng.choice(vals) for _ in range(n)) for _ in range(150 if tier == 'quick' else 500)]
                 elif tier == 'quick' and n == 6:
                     picks = [p for p in itertools.product(vals, repeat=n) if rng.random() < 0.35]
                 else:
@@ -145,7 +145,7 @@ def rand_table(rng, r, c, draw, p_missing):
 
 def gen_random(tier, rng):
     out = []
-    k = {'quick': 500, 'search': 2500}.get(tier, 6000)
+    k = {'quick': 500, 'search': 1500}.get(tier, 6000)
     mx = 6 if tier == 'thorough' else 5
     draws = [
         ('ties', lambda: rng.randint(0, 3)), ('small', lambda: rng.randint(0, 20)),
@@ -188,7 +188,7 @@ def gen_boundaries(tier, rng):
         out.append(mk([[v, N], [v, N]], 1, 'bound-2x2missing'))
         out.append(mk([[v, 1], [2, v]], 1, 'bound-2x2'))
         out.append(mk([[v, v - 1], [v - 1, v - 2]], 1, 'bound-2x2tie'))
-    k = {'quick': 150, 'search': 1000}.get(tier, 2500)
+    k = {'quick': 150, 'search': 600}.get(tier, 2500)
     for i in range(k):
         r, c = rng.randint(1, 3), rng.randint(1, 3)
         base = rng.choice(pos + neg)
